@@ -29,21 +29,29 @@ F2Body == Gr(<<Nd("Sub", <<>>, <<R("in", 3, 1, 0), R("in", 3, 2, 0)>>, 1, <<>>, 
                Nd("Add", <<>>, <<R("out", 3, 1, 1), R("in", 3, 1, 0)>>, 1, <<>>, 0)>>, <<R("out", 3, 2, 1)>>, <<>>)
 F3Body == Gr(<<Nd("Elu", <<<<"alpha", "@p">>>>, <<R("in", 4, 1, 0)>>, 1, <<>>, 0)>>, <<R("out", 4, 1, 1)>>, <<>>)
 \* F4(x) = ai.onnx.ml::Binarizer(x): a body that needs an operator set the main graph does not import
-\* F5(x) = Sub(F1(x), x): a function calling another function (present in every model, called or not)
+\* F5: a function calling another function (present in every model, called or not) - defined below
 F4Body == Gr(<<Nd("ai.onnx.ml::Binarizer", <<>>, <<R("in", 5, 1, 0)>>, 1, <<>>, 0)>>, <<R("out", 5, 1, 1)>>, <<>>)
 \* F6(x) = (Neg(x), Add(Neg(x), x)): two outputs, the first one also used inside the body; a call may omit
 \* (leave unnamed) one of the outputs - recorded on the call as the pseudo attribute __omit
 F6Body == Gr(<<Nd("Neg", <<>>, <<R("in", 7, 1, 0)>>, 1, <<>>, 0),
                Nd("Add", <<>>, <<R("out", 7, 1, 1), R("in", 7, 1, 0)>>, 1, <<>>, 0)>>,
              <<R("out", 7, 1, 1), R("out", 7, 2, 1)>>, <<>>)
-F5Body == Gr(<<Nd("F1", <<>>, <<R("in", 6, 1, 0)>>, 1, <<>>, 1),
-               Nd("Sub", <<>>, <<R("out", 6, 1, 1), R("in", 6, 1, 0)>>, 1, <<>>, 0)>>, <<R("out", 6, 2, 1)>>, <<>>)
+\* F5(x) = Sub(F2(F2(x, x), x), x): a function calling another function TWICE (with F2's internal value that makes
+\*         several instantiations of one body with an internal value per inlining of F5)
+F5Body == Gr(<<Nd("F2", <<>>, <<R("in", 6, 1, 0), R("in", 6, 1, 0)>>, 1, <<>>, 2),
+               Nd("F2", <<>>, <<R("out", 6, 1, 1), R("in", 6, 1, 0)>>, 1, <<>>, 2),
+               Nd("Sub", <<>>, <<R("out", 6, 2, 1), R("in", 6, 1, 0)>>, 1, <<>>, 0)>>, <<R("out", 6, 3, 1)>>, <<>>)
+\* F7(x, c) = If(c) { F1(x) } { Neg(x) }: a function whose body calls another function only from inside a
+\*            control-flow body (graphs 9 and 10 are the bodies; they capture the formal input x of graph 8)
+F7Body == Gr(<<Nd("If", <<>>, <<R("in", 8, 2, 0)>>, 1, <<9, 10>>, 0)>>, <<R("out", 8, 1, 1)>>, <<>>)
+F7Then == Gr(<<Nd("F1", <<>>, <<R("in", 8, 1, 0)>>, 1, <<>>, 1)>>, <<R("out", 9, 1, 1)>>, <<>>)
+F7Else == Gr(<<Nd("Neg", <<>>, <<R("in", 8, 1, 0)>>, 1, <<>>, 0)>>, <<R("out", 10, 1, 1)>>, <<>>)
 
 Init ==
   /\ p = [nin |-> 3,
-          g |-> <<Gr(<<>>, <<>>, <<"c1", "c1", "s1", "b1">>), F1Body, F2Body, F3Body, F4Body, F5Body, F6Body>>,
+          g |-> <<Gr(<<>>, <<>>, <<"c1", "c1", "s1", "b1">>), F1Body, F2Body, F3Body, F4Body, F5Body, F6Body, F7Body, F7Then, F7Else>>,
           f |-> <<[body |-> 2, nin |-> 1], [body |-> 3, nin |-> 2], [body |-> 4, nin |-> 1],
-                  [body |-> 5, nin |-> 1], [body |-> 6, nin |-> 1], [body |-> 7, nin |-> 1]>>]
+                  [body |-> 5, nin |-> 1], [body |-> 6, nin |-> 1], [body |-> 7, nin |-> 1], [body |-> 8, nin |-> 2]>>]
   /\ phase = "build"
 
 Main == p.g[1]
@@ -116,6 +124,7 @@ Build ==
      \/ \E x \in Avail : "Call2" \in Ops /\ AddNode(Nd("F5", <<>>, <<x>>, 1, <<>>, 5))
      \/ \E x \in Avail, om \in {<<>>, <<<<"__omit", "1">>>>} :   \* (a trailing omitted output is trimmed by serialization itself)
            "Call2" \in Ops /\ AddNode(Nd("F6", om, <<x>>, 2, <<>>, 6))
+     \/ \E x \in Avail : "Call2" \in Ops /\ AddNode(Nd("F7", <<>>, <<x, Cond>>, 1, <<>>, 7))
   /\ UNCHANGED phase
 
 OutChoices == NodeOuts \cup TypedOuts \cup {R("in", 1, 1, 0), R("init", 1, 1, 0)}
@@ -135,7 +144,7 @@ Spec == Init /\ [][Next]_vars
 OpCode(op) == CASE op = "Neg" -> 1 [] op = "Identity" -> 2 [] op = "Add" -> 3 [] op = "Sub" -> 4 [] op = "Constant" -> 5
                 [] op = "Split" -> 6 [] op = "Clip" -> 7 [] op = "If" -> 8 [] op = "F1" -> 9 [] op = "F2" -> 10 [] op = "F3" -> 11
                 [] op = "Cast" -> 13 [] op = "Dropout" -> 14 [] op = "LayerNormalization" -> 15 [] op = "BatchNormalization" -> 16
-                [] op = "F4" -> 17 [] op = "F5" -> 18 [] op = "F6" -> 19 [] OTHER -> 12
+                [] op = "F4" -> 17 [] op = "F5" -> 18 [] op = "F6" -> 19 [] op = "F7" -> 20 [] OTHER -> 12
 RefCode(r) == (IF r[1] = "in" THEN 1 ELSE IF r[1] = "init" THEN 2 ELSE IF r[1] = "out" THEN 3 ELSE 0) + 5 * r[2] + 11 * r[3] + 17 * r[4]
 NodeCode(n) == OpCode(n.op) + 13 * Len(n.attr) + FoldLeft(LAMBDA a, r : (a * 7 + RefCode(r)) % 100003, 0, n.ins)
 GraphCode(g) == FoldLeft(LAMBDA a, r : (a * 3 + RefCode(r)) % 100003,
